@@ -242,9 +242,11 @@ func (b *BaseStore) InitBaseStore(ipfs coreiface.CoreAPI, identity *identityprov
 	b.index = options.Index(b.Identity().PublicKey)
 	b.muIndex.Unlock()
 
+	// the replicator gets an event bus of its own: its load events carry no store address, so on a bus
+	// shared with other stores every store would merge and account for every other store's loads
 	b.replicator, err = replicator.NewReplicator(b, options.ReplicationConcurrency, &replicator.Options{
 		Logger:   b.logger,
-		EventBus: b.eventBus,
+		EventBus: eventbus.NewBus(),
 		Tracer:   b.tracer,
 	})
 	if err != nil {
@@ -1062,6 +1064,11 @@ func (b *BaseStore) storeListener(topic iface.PubSubTopic) error {
 			}
 
 			evt := e.(stores.EventWrite)
+			if evt.Address == nil || evt.Address.String() != b.id {
+				// the bus may be shared with other stores: only announce our own writes
+				continue
+			}
+
 			go func() {
 				// @TODO(gfanton): HandleEventWrite trigger a
 				// publish that is a blocking call if no peers
